@@ -216,3 +216,62 @@ Proof.
   exists m0. split; [reflexivity|]. split; [reflexivity|].
   vm_compute in E. injection E as <-. split; vm_compute; tauto.
 Qed.
+
+(* ---- the closed form for a video track (MPEG-TS): its units in the log are exactly the access units written to it
+   that were not skipped before the first random-access one, each once, in writing order ---- *)
+Fixpoint tsv_offered (ti : nat) (seen : bool) (ops : list wop) : list au :=
+  match ops with
+  | [] => []
+  | WWrite tj a :: rest =>
+      if Nat.eqb tj ti then
+        if sp_video_skipped H264 seen a then tsv_offered ti seen rest else a :: tsv_offered ti true rest
+      else tsv_offered ti seen rest
+  end.
+
+Definition of_track (ti : nat) (l : list tsunit) : list tsunit := filter (fun u => Nat.eqb (u_track u) ti) l.
+
+Lemma of_track_app ti l1 l2 : of_track ti (l1 ++ l2) = of_track ti l1 ++ of_track ti l2.
+Proof. apply filter_app. Qed.
+
+Theorem tspec_video_closed_form T0 cf ld si ti ops : forall sp seen,
+  nth_error T0 ti = Some (cf, ld, si) -> isVideo (t_kind cf) = true -> nth_error (tp_seen sp) ti = Some seen ->
+  of_track ti (tp_log (tsp_run T0 sp ops)) = of_track ti (tp_log sp) ++ map (tsp_video_unit ti cf) (tsv_offered ti seen ops).
+Proof.
+  induction ops as [|[tj a] ops IH]; intros sp seen HT Hv Hs.
+  - cbn. now rewrite app_nil_r.
+  - unfold tsp_run. cbn [fold_left tsv_offered]. fold (tsp_run T0 (tsp_step T0 sp (WWrite tj a)) ops).
+    destruct (Nat.eqb_spec tj ti) as [->|Hne].
+    + cbn [tsp_step]. rewrite HT, Hs, Hv.
+      destruct (sp_video_skipped H264 seen a); [now apply IH|].
+      rewrite (IH _ true HT Hv).
+      * cbn [tp_log]. rewrite of_track_app. cbn [of_track filter tsp_video_unit u_track]. rewrite Nat.eqb_refl.
+        now rewrite <- app_assoc.
+      * cbn [tp_seen]. now rewrite (nth_error_upd_same _ ti _ _ Hs).
+    + assert (Hk : of_track ti (tp_log (tsp_step T0 sp (WWrite tj a))) = of_track ti (tp_log sp)
+                   /\ nth_error (tp_seen (tsp_step T0 sp (WWrite tj a))) ti = Some seen).
+      { cbn [tsp_step]. destruct (nth_error T0 tj) as [[[cf' ld'] si']|]; [|auto].
+        destruct (nth_error (tp_seen sp) tj) as [sn|]; [|auto].
+        assert (Hdrop : forall u, u_track u = tj -> of_track ti (tp_log sp ++ [u]) = of_track ti (tp_log sp)).
+        { intros u Hu. rewrite of_track_app. cbn [of_track filter]. rewrite Hu.
+          destruct (Nat.eqb_spec tj ti); [congruence|]. now rewrite app_nil_r. }
+        destruct (isVideo (t_kind cf')).
+        - destruct (sp_video_skipped H264 sn a); [auto|]. cbn [tp_log tp_seen]. split; [now apply Hdrop|].
+          rewrite nth_error_upd_other by exact Hne. exact Hs.
+        - destruct (negb ld' && negb (tp_open sp)); [auto|]. cbn [tp_log tp_seen]. split; [now apply Hdrop|exact Hs]. }
+      destruct Hk as [K1 K2]. rewrite (IH _ seen HT Hv K2), K1. reflexivity.
+Qed.
+
+Theorem ts_video_track_closed_form c m0 ops ti cf ld si :
+  start c = Ok m0 -> c_variant c = MPEGTS -> all_ok m0 ops ->
+  nth_error (map tk_static (m_tracks m0)) ti = Some (cf, ld, si) -> isVideo (t_kind cf) = true ->
+  of_track ti (tslog (mux_run m0 ops)) = map (tsp_video_unit ti cf) (tsv_offered ti false ops).
+Proof.
+  intros Hs Hv Hok HT Hvid.
+  destruct (ts_history_accounting c m0 ops Hs Hv Hok) as (A & _ & _). cbv zeta in A. rewrite A.
+  set (T0 := map tk_static (m_tracks m0)) in *.
+  assert (Hlt : (ti < length T0)%nat) by (apply nth_error_Some; congruence).
+  assert (H0 : nth_error (tp_seen (tsp_init (length T0))) ti = Some false).
+  { cbn [tsp_init tp_seen]. clear - Hlt. revert ti Hlt. induction (length T0) as [|n IH]; intros [|i] H; simpl; try lia; auto.
+    apply IH. lia. }
+  rewrite (tspec_video_closed_form T0 cf ld si ti ops _ false HT Hvid H0). reflexivity.
+Qed.
